@@ -13,7 +13,7 @@ from harness import common as C
 RULE = ('planets 0.01-20 M_J, 0.1-3 R_J; 1-200 layers (quota for 1, 2, 3); pressure ranges pmin<pmax over 1e-6..1e8 Pa; '
         'temperature profiles isothermal / 2-point / Guillot / arbitrary positive array; mean molecular weight constant '
         'or varying with height (TwoLayerGas); pressure grids: SimplePressureProfile, ArrayPressureProfile (given or '
-        'reversed, log-regular or jittered); plus calculate_scale_properties on arbitrary strictly decreasing levels '
+        'reversed, log-regular / jittered / wild), FilePressureProfile (text file in Pa, bar, mbar); plus calculate_scale_properties on arbitrary strictly decreasing levels '
         'with random T and mu. distinct non-trivial = distinct (stream, pressure class, temperature class, layers, '
         'mu class) with non-constant T or mu or more than one layer')
 ASSUMPTIONS = [
